@@ -48,6 +48,12 @@ def planted():
             ps.append([["newvec", [1, 2, 3], None, None], ["newvec", [4, 5, 6], "a", None], ["newtab_vecs", src],
                        ["selcols", 0, ks, [True] * len(ks)], ["sett", 1, ["cell", 0, 0, 77]], ["read", 0],
                        ["sett", 0, ["cell", 1, ks[0], 55]], ["read", 1], ["sett", 0, ["colslice", ks[0], 9]], ["read", 1]])
+    # joins under every expectation (unique right keys take other code paths): the result owns all its columns
+    for how in ("join", "inner_join", "full_join"):
+        for want in (None, "one_to_one", "many_to_one", "one_to_many"):
+            ps.append([["newtab_dict", [["a", [1, 2, 3]], ["b", [5, 6, 7]]]], ["newtab_dict", [["a", [1, 2, 3]], ["c", [7, 8, 9]]]],
+                       ["join", 0, 1, how, want], ["sett", 2, ["cell", 0, 1, 500]], ["read", 0], ["sett", 0, ["cell", 1, 1, -4]],
+                       ["read", 2], ["sett", 1, ["cell", 2, 1, 44]], ["read", 2]])
     return [{"prog": p} for p in ps]
 
 
